@@ -104,6 +104,7 @@ pub struct Recorder {
     pub rfsm_threads_idle: usize,
     pub producers_busy: usize,
     pub timers_inflight: usize, // due (<= now), not cancelled, callback not finished
+    pub timer_tasks_live: usize,
     pub timer_items: BTreeMap<u64, TimerItem>,
     pub driver_waiting: bool,
     // lock bookkeeping
@@ -140,6 +141,7 @@ impl Recorder {
             rfsm_threads_idle: 0,
             producers_busy: 0,
             timers_inflight: 0,
+            timer_tasks_live: 0,
             timer_items: BTreeMap::new(),
             driver_waiting: false,
             held: BTreeMap::new(),
@@ -193,6 +195,10 @@ pub fn current_task() -> usize {
 
 pub fn with<R>(f: impl FnOnce(&mut Recorder) -> R) -> R {
     REC.with(|r| f(&mut r.borrow_mut()))
+}
+
+pub fn try_with<R>(f: impl FnOnce(&mut Recorder) -> R) -> Option<R> {
+    REC.with(|r| r.try_borrow_mut().ok().map(|mut g| f(&mut g)))
 }
 
 pub fn push(kind: RecKind) {
